@@ -47,6 +47,20 @@ EDITS = [
  ("M5 strip rule: chained remainder", "src/key.rs", "        if lead % 2 != 0 {", "        if lead % 6 % 4 != 0 {"),
  ("M6 wrath drop: only half of the pad applied", "src/wrath_header/inner_crypto/mod.rs", "        inner.apply_keystream(&mut pad_data);", "        inner.apply_keystream(&mut pad_data[..512]);"),
  ("M6 tbc seed rebound", "src/tbc_header/encrypt.rs", None, None),
+ ("D1 code between `// /*` and `// */` (line comments, live code)", "src/pin.rs",
+  "        pin /= 10;\n", "        pin /= 10; // /*\n        pin /= 10;\n        // */\n"),
+ ("D2 struct fields reordered and the other field used", "src/matrix_card.rs", None, None),
+ ("D3 pin buffer one byte shorter in the signature only", "src/pin.rs",
+  "fn pin_to_bytes(mut pin: u32, out_pin_array: &mut [u8; MAX_PIN_LENGTH as usize])", "fn pin_to_bytes(mut pin: u32, out_pin_array: &mut [u8; 9])"),
+ ("D4 constant written with an integer division", "src/pin.rs", "const MAX_PIN_LENGTH: u8 = 10;", "const MAX_PIN_LENGTH: u8 = 5 / 2 * 4;"),
+ ("D5 function written with a raw identifier", "src/pin.rs", "fn pin_to_bytes(", "fn r#pin_to_bytes("),
+ ("D6 a local macro named vec", "src/matrix_card.rs", "fn generate_coordinates(",
+  "macro_rules! vec { ($e:expr; $n:expr) => { std::vec![$e; { let n: usize = $n; n + 1 }] }; }\nfn generate_coordinates("),
+ ("D7 an untyped constant expression cast to u8", "src/matrix_card.rs", "    let matrix_size = width * height;\n", "    let matrix_size = width * height % ((514 / 2) as u8);\n"),
+ ("D8 a local that captures the name a field is folded to", "src/matrix_card.rs",
+  "        let start =\n            (y as usize * self.width as usize + x as usize) * self.digit_count as usize;",
+  "        let self_height = self.width;\n        let start =\n            (y as usize * self.height as usize + x as usize) * self.digit_count as usize;"),
+ ("D9 seed narrowed to u32 in the signature", "src/matrix_card.rs", "fn generate_coordinates(width: u8, height: u8, challenge_count: u8, mut seed: u64)", "fn generate_coordinates(width: u8, height: u8, challenge_count: u8, mut seed: u32)"),
  ("L2 loop variable shadowed by a local", "src/vanilla_header/encrypt.rs",
   "        *unencrypted = encrypted;\n        *previous_value = encrypted;", "        *unencrypted = encrypted;\n        let unencrypted = encrypted ^ 1;\n        *previous_value = unencrypted;"),
 ]
@@ -77,6 +91,11 @@ def main():
                 s = s[:j] + changed + "\n#[cfg(any())]\n" + body
             elif name.startswith("M3"):
                 s = s + new
+            elif name.startswith("D2"):
+                a, b = "    width: u8,\n    height: u8,\n", "    height: u8,\n    width: u8,\n"
+                if a not in s or "self.width as usize" not in s:
+                    print("%-9s %s" % ("skipped", name)); continue
+                s = s.replace(a, b, 1).replace("self.width as usize", "self.height as usize", 1)
             elif name.startswith("M6 tbc seed"):
                 if "let s: [u8; SEED_KEY_SIZE] = [" not in s:
                     print("%-9s %s" % ("skipped", name)); continue
